@@ -101,6 +101,11 @@ def discharge(obs, timeout=60, jobs=None, observe=None, progress=None):
     pending = [(i, o) for i, o in enumerate(obs) if o.status is None]
     work = []
     for i, o in pending:
+        atoms = getattr(o, 'atoms', None)
+        if atoms:
+            # definitions of the named multi-byte reads of initial memory
+            o.pc = list(o.pc) + [a == t for a, t in atoms.values()]
+            o.atoms = None
         text = to_smt2(o.pc, o.goal, observe if observe is not None else o.info.get('observe'))
         int_text = None
         if o.info.get('logic') == 'int':
